@@ -1,6 +1,6 @@
 (* extraction of the Out / serializer-skeleton model (C05); directives: ExtrOcamlBasic only *)
 From Coq Require Import ExtrOcamlBasic.
-From CssV Require Import Base Gen.Prefs OutModel.
+From CssV Require Import Base Gen.Prefs OutModel OutFacts.
 
 (* preference record from the wire format: booleans and strings in source order of useDefaults *)
 Definition mk_prefs (b : list bool) (st : list str) (ihf : option str) : option prefs :=
@@ -11,4 +11,11 @@ Definition mk_prefs (b : list bool) (st : list str) (ihf : option str) : option 
   | _, _ => None
   end.
 
-Extraction "outmodel_model.ml" mk_prefs run out_list value do_sheet prefs_default prefs_minified bool_prefs str_prefs importHrefFormat.
+(* the guards of out_separation, evaluated per item (the text an item contributes is read off the tagged list) *)
+Definition item_guard (p : prefs) (it : item) : option (bool * bool) :=     (* None = writes nothing / raises *)
+  match pre p [] it with
+  | PVal v _ => Some (leaves_sep p it v, keeps_sep p it)
+  | _ => None
+  end.
+
+Extraction "outmodel_model.ml" mk_prefs run out_list value do_sheet prefs_default prefs_minified bool_prefs str_prefs importHrefFormat item_guard ws_prefs.
